@@ -292,6 +292,10 @@ octosql "SELECT * FROM plugins.plugins"`,
 			if err != nil {
 				return fmt.Errorf("couldn't typecheck limit expression with index: %w", err)
 			}
+			if variables := physicalExpr.VariablesUsed(); len(variables) > 0 {
+				// The limit is evaluated once, without any record in scope.
+				return fmt.Errorf("limit expression must not reference record fields")
+			}
 			physicalLimitExpression = &physicalExpr
 		}
 
